@@ -11,4 +11,11 @@ def _(c):
     c.mod()
     c.result = {"tuple": [{"arrspec": (2, ["rows(xi)", 1], "num", False)}, {"arrspec": (2, ["rows(xi)", 1], "num", False)}, {"arrspec": (2, ["rows(xi)", 1], "num", False)}]}
     c.ens("one_value_per_candidate", "rows(result[0]) == rows(xi) and rows(result[1]) == rows(xi) and rows(result[2]) == rows(xi)", props=["C18", "C02", "C15"])
+    # C15: the documented LCB rule  z = mu - sqrt(beta_t) * sd,  beta_t = nu * 2 * log(D * t^2 * pi^2 / (6 * delta)),  t = func_count + 1, nu = 0.2, delta = 0.1
+    c.ens("lcb_is_mean_minus_sqrt_beta_times_sd", "implies(old(isnone(sqrt_beta)), forall(rows(xi), lambda k: result[0][k][0] == result[1][k][0] - "
+          "np.sqrt(0.2 * 2 * np.log(cols(xi) * (func_count + 1) ** 2 * np.pi ** 2 / (6 * 0.1))) * result[2][k][0]))", top=True, props=["C15"])
+    c.ens("mean_and_sd_are_the_gp_prediction", "forall(rows(xi), lambda k: result[1][k][0] == f_mu[k][0] and result[2][k][0] == np.sqrt(f_s2[k][0]))", top=True, props=["C15"])
+    c.ens_assumed("value_is_a_function_of_point_and_count", "forall(rows(xi), lambda k: result[0][k][0] == acqv(row(xi, k), func_count))",
+                  "T4: for a fixed GP state and beta argument gp.predict is pure and row-wise, so the LCB value of a row depends only on that row and func_count; "
+                  "checked on real runs by the C18 panel monitor (recomputation of z for the proposed point)", props=["C18"])
     c.may_raise("ValueError")
